@@ -8,7 +8,8 @@ CONSTANTS Trees
 VARIABLES tree, pc
 vars == <<tree, pc>>
 
-Env == [n \in {"a", "b", "c"} |-> CASE n = "a" -> Q(3) [] n = "b" -> Q(-2) [] n = "c" -> <<1, 2>>]
+Env == [n \in {"a", "b", "c", "d", "e", "f"} |-> CASE n = "a" -> Q(3) [] n = "b" -> Q(-2) [] n = "c" -> <<1, 2>>
+                                                 [] n = "d" -> Q(2) [] n = "e" -> Q(3) [] n = "f" -> <<1, 3>>]
 RECURSIVE Commuted(_)
 Commuted(t) == CASE t.k \in {"var", "lit", "past"} -> t
                  [] t.k \in {"neg", "call"} -> [t EXCEPT !.a = <<Commuted(t.a[1])>>]
@@ -37,4 +38,12 @@ D2 == { Bin(o, x, y) : o \in {"add", "sub", "mul", "div"}, x \in D1(LeafS), y \i
 (* a repeated sub-expression *)
 Rep == { Bin("mul", x, x) : x \in D1(LeafS) } \cup { Bin("sub", Bin("mul", x, V("c")), x) : x \in D1(LeafS) }
 Calls == { Call(f, x) : f \in {"sin", "cos", "tanh", "exp", "sigmoid"}, x \in LeafS \cup D1({V("a"), V("b"), L(2)}) }
+(* non-commutative operations with two compound operands of different textual length (exponents evaluate to 1 or 2) *)
+Sum2 == Bin("add", V("d"), V("e"))                                                  \* 5
+Sum4 == Bin("add", Bin("add", Bin("add", V("a"), V("b")), V("d")), V("e"))          \* 6
+Prod2 == Bin("mul", V("e"), V("f"))                                                 \* 1
+Prod4 == Bin("mul", Bin("mul", Bin("mul", V("c"), V("d")), V("e")), V("f"))         \* 1
+PowTrees == { Bin("pow", x, y) : x \in {Sum2, Sum4}, y \in {Prod2, Prod4} }
+            \cup { Bin("sub", x, y) : x \in {Sum2, Sum4, Prod2, Prod4}, y \in {Sum2, Sum4, Prod2, Prod4} }
+            \cup { Bin("div", x, y) : x \in {Sum2, Sum4, Prod4}, y \in {Prod2, Prod4} }
 =============================================================================
